@@ -31,7 +31,7 @@ var solvers = []solverSpec{
 	}, ""},
 }
 
-func (o *Obligation) script(e *Enc, extraAssume string) string {
+func (o *Obligation) script(e *Enc, extraAssume string, getValues []string) string {
 	var b strings.Builder
 	b.WriteString("(set-option :produce-models true)\n(set-logic ALL)\n")
 	n := o.N
@@ -39,6 +39,10 @@ func (o *Obligation) script(e *Enc, extraAssume string) string {
 		n = len(e.out)
 	}
 	for _, l := range e.out[:n] {
+		b.WriteString(l)
+		b.WriteByte('\n')
+	}
+	for _, l := range o.Extra {
 		b.WriteString(l)
 		b.WriteByte('\n')
 	}
@@ -50,7 +54,11 @@ func (o *Obligation) script(e *Enc, extraAssume string) string {
 		b.WriteString("(assert " + o.Reach + ")\n")
 	}
 	b.WriteString("(assert " + not(o.Goal) + ")\n")
-	b.WriteString("(check-sat)\n(get-model)\n")
+	b.WriteString("(check-sat)\n")
+	if len(getValues) > 0 {
+		b.WriteString("(get-value (" + strings.Join(getValues, " ") + "))\n")
+	}
+	b.WriteString("(get-model)\n")
 	return b.String()
 }
 
